@@ -94,11 +94,15 @@ def check_top_word_nonzero(ctx, F, body, who, exported_by):
         got = False
         nonzero = False
         for t, v, _ in r.preds:
-            if t[0] == 'discr' and sym.contains(t[1], lambda x: x == w) and sym.discr_variant(t, v) == 'Some':
-                got = True
+            if t[0] == 'discr' and sym.contains(t[1], lambda x: x == w):
+                dv = sym.discr_variant(t, v)
+                # `Some(word)` matched directly, or `read()?.ok_or(..)?` continued (None was turned into the error)
+                if dv == 'Some' or (dv == 'Continue' and sym.contains(t[1], lambda x: isinstance(x, tuple) and x and x[0] == 'call' and str(x[1]).endswith(('::ok_or', '::ok_or_else')) and sym.contains(x, lambda y: y == w))):
+                    got = True
             if t[0] == 'bin' and t[1] in ('Eq', 'Ne'):
                 for a, b in ((t[2], t[3]), (t[3], t[2])):
-                    if a[0] == 'k' and a[1] == 'zero' and b[0] == 'payload' and sym.contains(b, lambda x: x == w) and not sym.contains(b, lambda x: isinstance(x, tuple) and x and x[0] == 'bin'):
+                    # the word itself, possibly behind Option/Result plumbing (payload, unwrap, ok_or, `?`), but no arithmetic
+                    if a[0] == 'k' and a[1] == 'zero' and b[0] in ('payload', 'unwrap') and sym.contains(b, lambda x: x == w) and not sym.contains(b, lambda x: isinstance(x, tuple) and x and x[0] == 'bin'):
                         if (t[1] == 'Eq' and not v) or (t[1] == 'Ne' and v):
                             nonzero = True
         if not got:
@@ -189,16 +193,44 @@ def _in_loop(ev, e):
     return any(e['block'] in blocks for blocks in ev.loops.values())
 
 
-def threshold_predicates(F, b, state_like):
-    """Comparisons of the (running) state with a power of two in `b`: set of (op, threshold term, which side)."""
+def canon_below(t, v):
+    """(x, bound as pow2 polynomial, holds): the branch outcome says `(x < bound) == holds`.  None if not a threshold test."""
+    from vlib import pow2
+    if not (isinstance(t, tuple) and t and t[0] == 'bin'):
+        return None
+    op = t[1].split('.')[0]
+    a, b = t[2], t[3]
+    one = pow2.P2([(pow2.E0, 1)])
+    if op in ('Eq', 'Ne'):
+        for x, z in ((a, b), (b, a)):
+            if pow2._is_zero(z) and isinstance(x, tuple) and x[0] == 'bin' and x[1] == 'Shr' and pow2.width_exp(x[3]) is not None:
+                return (x[2], pow2.P2([(pow2.width_exp(x[3]), 1)]), bool(v) if op == 'Eq' else not v)
+        return None
+    if op in ('Gt', 'Ge'):
+        a, b = b, a
+        op = {'Gt': 'Lt', 'Ge': 'Le'}[op]
+    if op not in ('Lt', 'Le'):
+        return None
+    pa, pb = pow2.p2(a), pow2.p2(b)
+    if pb is not None and pa is None:          # x < B  /  x <= B
+        return (a, pb if op == 'Lt' else pb.plus(one), bool(v))
+    if pa is not None and pb is None:          # B < x  /  B <= x
+        return (b, pa.plus(one) if op == 'Lt' else pa, not v)
+    return None
+
+
+def threshold_predicates(F, b):
+    """Canonical "state < bound" tests of `b` whose bound is a power-of-two polynomial over the State / Word widths."""
     ev, paths = rules.evaluate(b)
     out = set()
     for r in paths or []:
         for t, v, _ in r.preds:
-            if t[0] == 'bin' and t[1] in ('Lt', 'Le'):
-                for side, (a, o) in (('state<T', (t[2], t[3])), ('T<state', (t[3], t[2]))):
-                    if o[0] == 'bin' and o[1] == 'Shl' and o[2][0] == 'k' and o[2][1] == 'one' and state_like(a):
-                        out.add((t[1], side, repr(effects.strip_uid(o))))
+            c = canon_below(t, v)
+            if c is None:
+                continue
+            bound = c[1].show()
+            if 'as BitArray>::BITS' in bound:
+                out.add(('state < T', bound))
     return out
 
 
@@ -212,26 +244,11 @@ def check_refill_threshold(ctx, F):
         return
     for b in (dec[0], fb, ri):
         ctx.touch(b)
-    anyterm = lambda a: True
-    pd = {x for x in threshold_predicates(F, dec[0], anyterm) if 'Sub' in x[2]}
-    pf = threshold_predicates(F, fb, anyterm)
-    pr = threshold_predicates(F, ri, anyterm)
-    # normal form: "state < T" ; read_initial_state tests the negation `state >= T` == Le(T, state)
-    def norm(s):
-        out = set()
-        for op, side, T in s:
-            if side == 'state<T' and op == 'Lt':
-                out.add(('state < T', T))
-            elif side == 'T<state' and op == 'Le':
-                out.add(('state < T', T))       # !(T <= state)
-            else:
-                out.add(('%s %s' % (op, side), T))
-        return out
-    nd, nf, nr = norm(pd), norm(pf), norm(pr)
+    nd, nf, nr = threshold_predicates(F, dec[0]), threshold_predicates(F, fb), threshold_predicates(F, ri)
     if not nd or not nf or not nr:
         ctx.unresolved('R4', role, ANS, 'threshold comparison not recognised (decode %s, from_binary %s, read_initial_state %s)' % (nd, nf, nr), key=key)
     elif nd == nf == nr and len(nd) == 1:
-        ctx.ok('R4', role, ANS, 'all three: %s with T = %s' % (list(nd)[0][0], list(nd)[0][1][:90]), key=key)
+        ctx.ok('R4', role, ANS, 'all three: %s with T = %s (canonicalised: `x >> k == 0`, `x < 1 << k`, `!(1 << k <= x)` are the same test)' % (list(nd)[0][0], list(nd)[0][1][:90]), key=key)
     else:
         ctx.bad('R4', role, ANS, 'decode_symbol refills while %s; from_binary fills while %s; read_initial_state fills while %s' % (sorted(nd), sorted(nf), sorted(nr)), key=key, loc=rules.loc(fb))
 
